@@ -2,7 +2,7 @@
 Require Extraction.
 Require Import ExtrOcamlBasic.
 From Coq Require Import ZArith.
-From Verif Require Import SendReq.Model.
+From Verif Require Import SendReq.Model SendReq.Cache.
 Extraction Language OCaml.
-Extraction "sendreq_model.ml" run fresh_rep n_attempts n_rearms
+Extraction "sendreq_model.ml" run run_st fresh_rep n_attempts n_rearms
   Z.of_N. (* Z.of_N only so that the shared common.ml (which mentions type z) compiles *)
